@@ -1,4 +1,4 @@
-(* Finding C17-D14 (FIXED by repo commit d9276a9, see also Findings/F_C16_1.v): before the fix
+(* Finding C17-D14 (FIXED by repo commit 59a9ae7, see also Findings/F_C16_1.v): before the fix
    State_SwapInSender_AwaitAgreement was not FailOnrecover and had no Event_ActionFailed edge: a
    swap-in requester restarted while waiting for the agreement neither cancelled nor told the
    peer, and its 10-minute timer was gone with the old process.  Refuted on the model for the
